@@ -68,7 +68,7 @@ CLAIMED = {
     "C07": {
         "text": "Lean 4 theorems (Props/C07.lean): header rows have no effect whatever they contain (C07_header_skip/_blind), rows beyond the limit are returned "
                 "unchanged with no call and counted as accepted (C07_beyond_limit, C07_zero), every reported error lies after the header and within the limit "
-                "(C07_errors_in_window), --until mapping (C07_cli_until). Correspondence: exhaustive header x limit x bad-row position sweep through cutplace.rows, "
+                "(C07_errors_in_window), --until mapping (C07_cli_until), what has been read does not depend on the rows or the container fault that follow (C07_prefix_blind, C07_stop_blind: the validate-only API stops after N data rows). Correspondence: exhaustive header x limit x bad-row position sweep through cutplace.rows, "
                 "Reader and cutplace.validate.",
         "note": "Trusted: Lean kernel; model faithfulness (correspondence); the command line --until path is exercised in C18.",
         "technique": "Lean 4 proof + exhaustive boundary sweep (header, limit, position) as correspondence",
